@@ -1,4 +1,5 @@
-(** * C04 proofs, part 2: the states that histories of push/close can reach.
+(** * C04 proofs, part 2: the states that histories of push/close could reach BEFORE the fix of push/close
+    ([loop_push_pre], [loop_close_pre], [loop_run_pre] of Model/Loop.v: kept for the witnesses of the repaired findings).
     Part A (every number instance): the exact effect of an accepted [push] and of [close] on the state,
     and the invariant [Reach_inv] of all states reachable from [loop_new], by induction over operation lists.
     Part B (reals): interior corners stay genuine (non-zero cross product) as long as every collinear
@@ -10,6 +11,63 @@ Import ListNotations.
 Section AnyNum.
   Context {K : Type} {NK : Num K}.
   Notation V := (V3 K).
+
+  (** *** the lemmas of Proofs/C04_loop.v as they were for the code before the fix *)
+  Theorem push_on_closed_refused_pre (L : Loop K) (p : V) : lclosed L = true -> loop_push_pre L p = Err 30%N.
+  Proof. intros H. unfold loop_push_pre, loop_push_gen, loop_push_gen2, valid_to_add. rewrite H. reflexivity. Qed.
+
+  Definition accepts_pre (L : Loop K) (p : V) : bool :=
+    negb (lclosed L) &&
+    (if negb (vis_zero (lnormal L)) then match loop_is_coplanar L p with Ok b => b | _ => false end else true) &&
+    (if Nat.leb 3 (llen L) then negb (crosses_any (seg_new (vnth (verts L) (llen L - 1)) p) (verts L) (llen L - 2)) else true) &&
+    (if Nat.leb 2 (llen L) then vcompare (vnth (verts L) (llen L - 2)) p ||
+                                is_ok (is_collinear (vnth (verts L) (llen L - 2)) (vnth (verts L) (llen L - 1)) p) else true).
+  Lemma set_normal_tail_ok_pre (L : Loop K) (vs : list V) :
+    is_ok (if Nat.eqb (length vs) 3 then loop_set_normal (set_verts L vs) else Ok (set_verts L vs)) = true.
+  Proof.
+    destruct (Nat.eqb (length vs) 3) eqn:El; [|reflexivity]. apply Nat.eqb_eq in El.
+    unfold loop_set_normal. cbn [verts set_verts]. destruct vs as [|x [|y [|z w]]]; cbn [length] in El; try discriminate; reflexivity.
+  Qed.
+  Lemma push_tail_accepts_pre (L : Loop K) (p : V) :
+    is_ok (do vs <- (if Nat.leb 2 (llen L) then
+                if vcompare (vnth (verts L) (llen L - 2)) p then Ok (removelast (verts L)) else
+                do col <- is_collinear (vnth (verts L) (llen L - 2)) (vnth (verts L) (llen L - 1)) p;
+                Ok (if col then replace_last (verts L) p else verts L ++ [p])
+              else Ok (verts L ++ [p]));
+           if Nat.eqb (length vs) 3 then loop_set_normal (set_verts L vs) else Ok (set_verts L vs)) =
+    (if Nat.leb 2 (llen L) then vcompare (vnth (verts L) (llen L - 2)) p ||
+                                is_ok (is_collinear (vnth (verts L) (llen L - 2)) (vnth (verts L) (llen L - 1)) p) else true).
+  Proof.
+    destruct (Nat.leb 2 (llen L)).
+    - destruct (vcompare _ p); cbn [orb rbind]; [apply set_normal_tail_ok_pre|].
+      destruct (is_collinear _ _ p) as [c| |]; cbn [rbind is_ok]; try reflexivity. apply set_normal_tail_ok_pre.
+    - cbn [rbind]. apply set_normal_tail_ok_pre.
+  Qed.
+  Theorem push_accepts_pre (L : Loop K) (p : V) : is_ok (loop_push_pre L p) = accepts_pre L p.
+  Proof.
+    unfold loop_push_pre, loop_push_gen, loop_push_gen2, accepts_pre. cbn [negb andb]. rewrite <- push_tail_accepts_pre.
+    unfold valid_to_add. destruct (lclosed L); [reflexivity|]. cbn [negb andb].
+    destruct (negb (vis_zero (lnormal L))).
+    - destruct (loop_is_coplanar L p) as [c| |]; cbn [rbind]; try reflexivity. destruct c; cbn [negb andb]; [|reflexivity].
+      destruct (Nat.leb 3 (llen L)); cbn [rbind]; [|reflexivity].
+      destruct (crosses_any _ _ _); cbn [rbind negb andb]; reflexivity.
+    - cbn [rbind negb andb]. destruct (Nat.leb 3 (llen L)); cbn [rbind]; [|reflexivity].
+      destruct (crosses_any _ _ _); cbn [rbind negb andb]; reflexivity.
+  Qed.
+
+  Theorem close_ok_invariants_pre (L : Loop K) : snd (loop_close_pre L) = Ok tt ->
+    let L' := fst (loop_close_pre L) in lclosed L' = true /\ 3 <= llen L'.
+  Proof.
+    unfold loop_close_pre. destruct (Nat.ltb (llen L) 3); [discriminate|].
+    destruct (is_collinear _ _ _) as [c1| |]; cbn [snd]; try discriminate.
+    destruct (valid_to_add _ _) as [u| |]; cbn [snd]; try discriminate.
+    destruct (is_collinear _ _ _) as [c2| |]; cbn [snd]; try discriminate.
+    match goal with |- context [match loop_set_area ?l with _ => _ end] => destruct (loop_set_area l) as [l4| |] eqn:E4 end; cbn [snd]; try discriminate.
+    destruct (loop_set_perimeter l4) as [l5| |] eqn:E5; cbn [snd fst]; try discriminate. intros _.
+    unfold loop_set_perimeter in E5. destruct (negb (lclosed l4)) eqn:Ec; [discriminate|]. destruct (vis_zero _); [discriminate|].
+    destruct (Nat.ltb (llen l4) 3) eqn:El; [discriminate|]. inversion E5; subst. cbn [lclosed llen verts].
+    split; [destruct (lclosed l4); [reflexivity | discriminate]|]. apply Nat.ltb_ge in El. exact El.
+  Qed.
 
   (** the normal that [set_normal] computes from the first corner of a vertex list *)
   Definition tri_normal (vs : list V) : V :=
@@ -120,11 +178,11 @@ Section AnyNum.
     - intros H. inversion H. reflexivity.
   Qed.
 
-  Theorem push_ok_effect (L L' : Loop K) (p : V) : loop_push L p = Ok L' ->
+  Theorem push_ok_effect (L L' : Loop K) (p : V) : loop_push_pre L p = Ok L' ->
     lclosed L = false /\ push_shape (verts L) p (verts L') /\
     L' = mkLoop (verts L') (if Nat.eqb (llen L') 3 then tri_normal (verts L') else lnormal L) false (larea L) (lperim L).
   Proof.
-    unfold loop_push, loop_push_gen, loop_push_gen2. cbn [negb andb].
+    unfold loop_push_pre, loop_push_gen, loop_push_gen2. cbn [negb andb].
     destruct (valid_to_add L p) as [u| |] eqn:Ev; cbn [rbind]; try discriminate.
     pose proof (valid_to_add_open _ _ _ Ev) as Hc. unfold llen.
     destruct (Nat.leb 2 (length (verts L))) eqn:E2.
@@ -142,7 +200,7 @@ Section AnyNum.
   Qed.
 
   (** the vertex count moves by at most one, and the cached normal changes only when the push leaves exactly three vertices *)
-  Corollary push_len_normal (L L' : Loop K) (p : V) : loop_push L p = Ok L' ->
+  Corollary push_len_normal (L L' : Loop K) (p : V) : loop_push_pre L p = Ok L' ->
     (llen L' = llen L - 1 \/ llen L' = llen L \/ llen L' = S (llen L)) /\ (lnormal L' = lnormal L \/ llen L' = 3).
   Proof.
     intros H. destruct (push_ok_effect _ _ _ H) as (_ & Hs & HL). split.
@@ -174,7 +232,7 @@ Section AnyNum.
 
   (** an APPENDED vertex (not a replacement, not a spike pop) passed both tests of the library at that moment:
       the corner at the previous vertex is not collinear, and the new edge intersects none of the edges 0 .. n-3 *)
-  Theorem push_append_checked (L L' : Loop K) (p : V) : loop_push L p = Ok L' -> verts L' = verts L ++ [p] -> 2 <= llen L ->
+  Theorem push_append_checked (L L' : Loop K) (p : V) : loop_push_pre L p = Ok L' -> verts L' = verts L ++ [p] -> 2 <= llen L ->
     is_collinear (vnth (verts L) (llen L - 2)) (vnth (verts L) (llen L - 1)) p = Ok false /\
     (3 <= llen L -> forall i, i < llen L - 2 ->
        seg_intersect (seg_new (vnth (verts L) (llen L - 1)) p) (seg_new (vnth (verts L) i) (vnth (verts L) (S i))) = None).
@@ -189,8 +247,8 @@ Section AnyNum.
       + rewrite Hv in E. apply (f_equal (@rev _)) in E. rewrite rev_snoc, rev_replace_last, Er in E. cbn [tl] in E.
         inversion E. apply (f_equal (@length _)) in H2. cbn in H2. lia.
       + rewrite Er in Er0. inversion Er0. subst. exact Hc.
-    - intros H3 i Hi. pose proof (push_accepts L p) as Ha. rewrite H in Ha. cbn [is_ok] in Ha. symmetry in Ha.
-      unfold accepts in Ha. apply andb_prop in Ha. destruct Ha as (Ha & _). apply andb_prop in Ha. destruct Ha as (_ & Ha).
+    - intros H3 i Hi. pose proof (push_accepts_pre L p) as Ha. rewrite H in Ha. cbn [is_ok] in Ha. symmetry in Ha.
+      unfold accepts_pre in Ha. apply andb_prop in Ha. destruct Ha as (Ha & _). apply andb_prop in Ha. destruct Ha as (_ & Ha).
       apply Nat.leb_le in H3. rewrite H3 in Ha. apply negb_true_iff in Ha.
       apply (proj1 (crosses_any_false _ _ _) Ha i Hi). apply Nat.leb_le in H3. unfold llen in *. lia.
   Qed.
@@ -220,7 +278,7 @@ Section AnyNum.
   Definition close_test1 (L : Loop K) := is_collinear (vnth (verts L) (llen L - 2)) (vnth (verts L) (llen L - 1)) (vnth (verts L) 0).
   Definition close_test2 (vs1 : list V) := is_collinear (vnth vs1 (length vs1 - 1)) (vnth vs1 0) (vnth vs1 1).
   Theorem close_effect (L : Loop K) :
-    let L' := fst (loop_close L) in let o := snd (loop_close L) in
+    let L' := fst (loop_close_pre L) in let o := snd (loop_close_pre L) in
     (L' = L /\ o <> Ok tt) \/
     (3 <= llen L /\ close_test1 L = Ok true /\ L' = set_verts L (removelast (verts L)) /\ o <> Ok tt) \/
     (3 <= llen L /\ lclosed L = false /\ lclosed L' = true /\ (o = Ok tt \/ o = Err 33%N \/ o = Err 36%N) /\
@@ -228,7 +286,7 @@ Section AnyNum.
        let vs1 := if c1 then removelast (verts L) else verts L in
        close_test2 vs1 = Ok c2 /\ verts L' = (if c2 then tl vs1 else vs1)).
   Proof.
-    cbv zeta. unfold loop_close, close_test1, close_test2.
+    cbv zeta. unfold loop_close_pre, close_test1, close_test2.
     destruct (Nat.ltb (llen L) 3) eqn:E3; [left; split; [reflexivity | discriminate]|]. apply Nat.ltb_ge in E3.
     destruct (is_collinear _ _ _) as [c1| |] eqn:E1; [|left; split; [reflexivity | discriminate] ..].
     set (L1 := if c1 then set_verts L (removelast (verts L)) else L).
@@ -300,7 +358,7 @@ Section Invariant.
     intros _. repeat split.
   Qed.
 
-  Lemma reach_inv_push (L L' : Loop K) (p : V) : Reach_inv L -> loop_push L p = Ok L' -> Reach_inv L'.
+  Lemma reach_inv_push (L L' : Loop K) (p : V) : Reach_inv L -> loop_push_pre L p = Ok L' -> Reach_inv L'.
   Proof.
     intros [I1 I2 I3 I4] H. destruct (push_ok_effect _ _ _ H) as (Hc & Hs & HL).
     assert (Hcl : lclosed L' = false) by (rewrite HL; reflexivity).
@@ -339,7 +397,7 @@ Section Invariant.
   Lemma adj_distinct_tl (vs : list V) : adj_distinct vs -> adj_distinct (tl vs).
   Proof. unfold adj_distinct. rewrite rev_tl. apply radj_removelast. Qed.
 
-  Lemma reach_inv_close (L : Loop K) : Reach_inv L -> Reach_inv (fst (loop_close L)).
+  Lemma reach_inv_close (L : Loop K) : Reach_inv L -> Reach_inv (fst (loop_close_pre L)).
   Proof.
     intros HI. pose proof HI as [I1 I2 I3 I4]. destruct (close_effect L) as [(-> & _)|[(H3 & _ & -> & _)|(H3 & Hop & Hcl & _ & c1 & c2 & _ & _ & Hv)]].
     - exact HI.
@@ -348,7 +406,7 @@ Section Invariant.
       + exact I2.
       + intros Hc Hl. rewrite length_removelast in Hl. rewrite tri_normal_removelast by lia. apply I3; [exact Hc | lia].
       + intros _. apply adj_distinct_removelast, I4. lia.
-    - assert (Hadj : adj_distinct (verts (fst (loop_close L)))).
+    - assert (Hadj : adj_distinct (verts (fst (loop_close_pre L)))).
       { rewrite Hv. assert (A0 : adj_distinct (verts L)) by (apply I4; lia).
         assert (A1 : adj_distinct (if c1 then removelast (verts L) else verts L)) by (destruct c1; [apply adj_distinct_removelast|]; exact A0).
         destruct c2; [apply adj_distinct_tl|]; exact A1. }
@@ -361,18 +419,18 @@ Section Invariant.
       + intros _. exact Hadj.
   Qed.
 
-  Lemma reach_inv_step (L : Loop K) (op : lop K) : Reach_inv L -> Reach_inv (fst (loop_step L op)).
+  Lemma reach_inv_step (L : Loop K) (op : lop K) : Reach_inv L -> Reach_inv (fst (loop_step_pre L op)).
   Proof.
-    intros HI. destruct op as [p|]; cbn [loop_step]; [|apply reach_inv_close, HI].
-    destruct (loop_push L p) as [L'| |] eqn:E; cbn [fst]; [eapply reach_inv_push; eauto | exact HI ..].
+    intros HI. destruct op as [p|]; cbn [loop_step_pre]; [|apply reach_inv_close, HI].
+    destruct (loop_push_pre L p) as [L'| |] eqn:E; cbn [fst]; [eapply reach_inv_push; eauto | exact HI ..].
   Qed.
-  Theorem reach_inv_run (ops : list (lop K)) : forall L : Loop K, Reach_inv L -> Reach_inv (fst (loop_run L ops)).
+  Theorem reach_inv_run (ops : list (lop K)) : forall L : Loop K, Reach_inv L -> Reach_inv (fst (loop_run_pre L ops)).
   Proof.
-    induction ops as [|op ops IH]; intros L HI; cbn [loop_run]; [exact HI|].
-    pose proof (reach_inv_step L op HI) as H1. destruct (loop_step L op) as [L1 o]. cbn [fst] in H1.
-    specialize (IH L1 H1). destruct (loop_run L1 ops) as [L2 os]. exact IH.
+    induction ops as [|op ops IH]; intros L HI; cbn [loop_run_pre]; [exact HI|].
+    pose proof (reach_inv_step L op HI) as H1. destruct (loop_step_pre L op) as [L1 o]. cbn [fst] in H1.
+    specialize (IH L1 H1). destruct (loop_run_pre L1 ops) as [L2 os]. exact IH.
   Qed.
-  Theorem reachable_invariant (ops : list (lop K)) : Reach_inv (fst (loop_run (@loop_new K NK) ops)).
+  Theorem reachable_invariant (ops : list (lop K)) : Reach_inv (fst (loop_run_pre (@loop_new K NK) ops)).
   Proof. apply reach_inv_run, reach_inv_new. Qed.
 
   (** the invariant on adjacent vertices, read by index *)
@@ -389,20 +447,20 @@ Section Invariant.
     - rewrite !app_nth1 by lia. apply IH; [exact (radj_tl _ _ H) | lia].
   Qed.
   Corollary reachable_no_adjacent_duplicates (ops : list (lop K)) :
-    let L := fst (loop_run (@loop_new K NK) ops) in
+    let L := fst (loop_run_pre (@loop_new K NK) ops) in
     llen L <> 2 -> forall i, S i < llen L -> vcompare (vnth (verts L) i) (vnth (verts L) (S i)) = false.
   Proof. cbv zeta. intros H2 i Hi. apply radj_nth; [|exact Hi]. apply (ri_adjacent _ (reachable_invariant ops)), H2. Qed.
 
   (** ** closed states: every further operation is refused; nothing changes, except that a further [close] may pop
       the last vertex (when it tests collinear with its cyclic neighbours) before it fails *)
   Theorem closed_absorbing (L : Loop K) (op : lop K) : lclosed L = true ->
-    let L' := fst (loop_step L op) in
-    snd (loop_step L op) <> Ok tt /\ lclosed L' = true /\ lnormal L' = lnormal L /\ larea L' = larea L /\ lperim L' = lperim L /\
+    let L' := fst (loop_step_pre L op) in
+    snd (loop_step_pre L op) <> Ok tt /\ lclosed L' = true /\ lnormal L' = lnormal L /\ larea L' = larea L /\ lperim L' = lperim L /\
     (verts L' = verts L \/
      (op = LClose /\ 3 <= llen L /\ close_test1 L = Ok true /\ verts L' = removelast (verts L))).
   Proof.
-    intros Hc. destruct op as [p|]; cbn [loop_step].
-    - rewrite (push_on_closed_refused L p Hc). cbn [fst snd]. repeat split; try discriminate; auto.
+    intros Hc. destruct op as [p|]; cbn [loop_step_pre].
+    - rewrite (push_on_closed_refused_pre L p Hc). cbn [fst snd]. repeat split; try discriminate; auto.
     - destruct (close_effect L) as [(E & Ho)|[(H3 & Ht & E & Ho)|(_ & Hop & _)]].
       + cbv zeta. rewrite E. repeat split; auto.
       + cbv zeta. rewrite E. cbn [set_verts lclosed lnormal larea lperim verts]. repeat split; auto.
@@ -410,11 +468,11 @@ Section Invariant.
   Qed.
 
   (** ** what a failed close may have changed (the property demands an unchanged state only for refused ADDITIONS) *)
-  Theorem failed_close_effect (L : Loop K) : snd (loop_close L) <> Ok tt ->
-    let L' := fst (loop_close L) in
+  Theorem failed_close_effect (L : Loop K) : snd (loop_close_pre L) <> Ok tt ->
+    let L' := fst (loop_close_pre L) in
     L' = L \/
     (3 <= llen L /\ close_test1 L = Ok true /\ L' = set_verts L (removelast (verts L))) \/
-    (3 <= llen L /\ lclosed L = false /\ lclosed L' = true /\ (snd (loop_close L) = Err 33%N \/ snd (loop_close L) = Err 36%N)).
+    (3 <= llen L /\ lclosed L = false /\ lclosed L' = true /\ (snd (loop_close_pre L) = Err 33%N \/ snd (loop_close_pre L) = Err 36%N)).
   Proof.
     intros Ho. cbv zeta. destruct (close_effect L) as [(E & _)|[(H3 & Ht & E & _)|(H3 & Hop & Hcl & Hout & _)]].
     - left. exact E.
@@ -423,19 +481,19 @@ Section Invariant.
   Qed.
 
   (** ** a successful close: which vertices it drops, exactly *)
-  Theorem close_ok_effect (L : Loop K) : snd (loop_close L) = Ok tt ->
-    let L' := fst (loop_close L) in
+  Theorem close_ok_effect (L : Loop K) : snd (loop_close_pre L) = Ok tt ->
+    let L' := fst (loop_close_pre L) in
     lclosed L = false /\ lclosed L' = true /\ 3 <= llen L' /\
     exists c1 c2, close_test1 L = Ok c1 /\
       let vs1 := if c1 then removelast (verts L) else verts L in
       close_test2 vs1 = Ok c2 /\ verts L' = (if c2 then tl vs1 else vs1).
   Proof.
-    intros Ho. cbv zeta. destruct (close_ok_invariants L Ho) as (_ & Hl).
+    intros Ho. cbv zeta. destruct (close_ok_invariants_pre L Ho) as (_ & Hl).
     destruct (close_effect L) as [(_ & E)|[(_ & _ & _ & E)|(H3 & Hop & Hcl & _ & Hex)]]; [contradiction | contradiction |].
     repeat split; auto.
   Qed.
   (** in particular: when close drops nothing, both wrap-around corners passed the library's collinearity test *)
-  Corollary close_ok_nothing_dropped (L : Loop K) : snd (loop_close L) = Ok tt -> verts (fst (loop_close L)) = verts L ->
+  Corollary close_ok_nothing_dropped (L : Loop K) : snd (loop_close_pre L) = Ok tt -> verts (fst (loop_close_pre L)) = verts L ->
     is_collinear (vnth (verts L) (llen L - 2)) (vnth (verts L) (llen L - 1)) (vnth (verts L) 0) = Ok false /\
     is_collinear (vnth (verts L) (llen L - 1)) (vnth (verts L) 0) (vnth (verts L) 1) = Ok false.
   Proof.
@@ -489,10 +547,10 @@ Section RealTier.
   Fixpoint exact_run (L : Loop R) (ops : list (lop R)) : Prop :=
     match ops with
     | [] => True
-    | op :: tl => match op with LPush p => exact_push L p | LClose => True end /\ exact_run (fst (loop_step L op)) tl
+    | op :: tl => match op with LPush p => exact_push L p | LClose => True end /\ exact_run (fst (loop_step_pre L op)) tl
     end.
 
-  Lemma corners_push (L L' : Loop R) (p : VR) : corners genuine (verts L) -> exact_push L p -> loop_push L p = Ok L' ->
+  Lemma corners_push (L L' : Loop R) (p : VR) : corners genuine (verts L) -> exact_push L p -> loop_push_pre L p = Ok L' ->
     corners genuine (verts L').
   Proof.
     unfold corners. intros HI Hex H. destruct (push_ok_effect _ _ _ H) as (_ & Hs & _).
@@ -504,7 +562,7 @@ Section RealTier.
       apply (genuine_replace z a b p Hg); [exact (Hex a b (z :: r) Er Hcmp Hcol) | exact (vcompare_false_neq _ _ Hcmp)].
     - rewrite rev_snoc, Er. rewrite Er in HI. split; [exact (is_collinear_false_genuine _ _ _ Hcol) | exact HI].
   Qed.
-  Lemma corners_close (L : Loop R) : (3 <= llen L)%nat -> corners genuine (verts L) -> corners genuine (verts (fst (loop_close L))).
+  Lemma corners_close (L : Loop R) : (3 <= llen L)%nat -> corners genuine (verts L) -> corners genuine (verts (fst (loop_close_pre L))).
   Proof.
     unfold corners. intros _ HI. destruct (close_effect L) as [(-> & _)|[(_ & _ & -> & _)|(_ & _ & _ & _ & c1 & c2 & _ & _ & ->)]].
     - exact HI.
@@ -513,23 +571,23 @@ Section RealTier.
       { destruct c1; [|exact HI]. rewrite rev_removelast. destruct (rev (verts L)); [exact I|]. exact (rwin3_tl _ _ _ HI). }
       destruct c2; [|exact H1]. rewrite rev_tl. apply rwin3_removelast, H1.
   Qed.
-  Lemma corners_close' (L : Loop R) : corners genuine (verts L) -> corners genuine (verts (fst (loop_close L))).
+  Lemma corners_close' (L : Loop R) : corners genuine (verts L) -> corners genuine (verts (fst (loop_close_pre L))).
   Proof.
     intros HI. destruct (Nat.ltb (llen L) 3) eqn:E.
-    - unfold loop_close. rewrite E. exact HI.
+    - unfold loop_close_pre. rewrite E. exact HI.
     - apply corners_close; [apply Nat.ltb_ge; exact E | exact HI].
   Qed.
   Theorem corners_run (ops : list (lop R)) : forall L : Loop R, corners genuine (verts L) -> exact_run L ops ->
-    corners genuine (verts (fst (loop_run L ops))).
+    corners genuine (verts (fst (loop_run_pre L ops))).
   Proof.
-    induction ops as [|op ops IH]; intros L HI Hex; cbn [loop_run]; [exact HI|]. destruct Hex as (Hop & Hex).
-    assert (H1 : corners genuine (verts (fst (loop_step L op)))).
-    { destruct op as [p|]; cbn [loop_step]; [|apply corners_close', HI].
-      destruct (loop_push L p) as [L'| |] eqn:E; cbn [fst]; [exact (corners_push _ _ _ HI Hop E) | exact HI ..]. }
-    destruct (loop_step L op) as [L1 o]. cbn [fst] in *. specialize (IH L1 H1 Hex). destruct (loop_run L1 ops) as [L2 os]. exact IH.
+    induction ops as [|op ops IH]; intros L HI Hex; cbn [loop_run_pre]; [exact HI|]. destruct Hex as (Hop & Hex).
+    assert (H1 : corners genuine (verts (fst (loop_step_pre L op)))).
+    { destruct op as [p|]; cbn [loop_step_pre]; [|apply corners_close', HI].
+      destruct (loop_push_pre L p) as [L'| |] eqn:E; cbn [fst]; [exact (corners_push _ _ _ HI Hop E) | exact HI ..]. }
+    destruct (loop_step_pre L op) as [L1 o]. cbn [fst] in *. specialize (IH L1 H1 Hex). destruct (loop_run_pre L1 ops) as [L2 os]. exact IH.
   Qed.
   Theorem reachable_corners_genuine (ops : list (lop R)) : exact_run (@loop_new R NumR) ops ->
-    corners genuine (verts (fst (loop_run (@loop_new R NumR) ops))).
+    corners genuine (verts (fst (loop_run_pre (@loop_new R NumR) ops))).
   Proof. apply corners_run. exact I. Qed.
 
   (** read by index *)
@@ -557,21 +615,21 @@ Section RealTier.
     - rewrite !app_nth1 by lia. apply IH; [exact (rwin3_tl _ _ _ H) | lia].
   Qed.
   Corollary reachable_corners_genuine_nth (ops : list (lop R)) : exact_run (@loop_new R NumR) ops ->
-    let L := fst (loop_run (@loop_new R NumR) ops) in
+    let L := fst (loop_run_pre (@loop_new R NumR) ops) in
     forall i, (S (S i) < llen L)%nat -> genuine (vnth (verts L) i) (vnth (verts L) (S i)) (vnth (verts L) (S (S i))).
   Proof. intros H. cbv zeta. apply rwin3_nth. exact (reachable_corners_genuine ops H). Qed.
 
   (** a closed loop none of whose vertices was dropped by [close]: ALL corners are genuine, the two wrap-around ones included *)
   Theorem closed_all_corners_genuine (ops : list (lop R)) :
-    let L := fst (loop_run (@loop_new R NumR) ops) in
-    exact_run (@loop_new R NumR) ops -> snd (loop_close L) = Ok tt -> verts (fst (loop_close L)) = verts L ->
-    let L' := fst (loop_close L) in let n := llen L' in
+    let L := fst (loop_run_pre (@loop_new R NumR) ops) in
+    exact_run (@loop_new R NumR) ops -> snd (loop_close_pre L) = Ok tt -> verts (fst (loop_close_pre L)) = verts L ->
+    let L' := fst (loop_close_pre L) in let n := llen L' in
     lclosed L' = true /\ (3 <= n)%nat /\
     (forall i, (S (S i) < n)%nat -> genuine (vnth (verts L') i) (vnth (verts L') (S i)) (vnth (verts L') (S (S i)))) /\
     genuine (vnth (verts L') (n - 2)) (vnth (verts L') (n - 1)) (vnth (verts L') 0) /\
     genuine (vnth (verts L') (n - 1)) (vnth (verts L') 0) (vnth (verts L') 1).
   Proof.
-    cbv zeta. intros Hex Ho Hv. destruct (close_ok_invariants _ Ho) as (Hc & H3).
+    cbv zeta. intros Hex Ho Hv. destruct (close_ok_invariants_pre _ Ho) as (Hc & H3).
     destruct (close_ok_nothing_dropped _ Ho Hv) as (T1 & T2). unfold llen in *. rewrite Hv in *.
     split; [exact Hc|]. split; [exact H3|]. split; [|split].
     - apply (reachable_corners_genuine_nth ops Hex).
